@@ -67,7 +67,7 @@ DomOK(e, a) ==
     [] e.op = "set_gaps"    -> TableOK(0, <<>>, a[1])
     [] e.op = "poke_symbols" -> Dom_Poke(P, a[1], a[2]) /\ a[3] >= 0
     [] e.op = "poke_gaps"   -> Dom_Poke(P, a[1], 0) /\ a[2] >= 0
-    [] e.op = "getitem"     -> a[1][1] # "int" \/ Dom_IntIndex(P, a[1][2][1])
+    [] e.op = "getitem"     -> Dom_Index(P, a[1])
     [] e.op = "odds"        -> Dom_Background(P, a[1])
     [] e.op = "seqprob"     -> /\ WellFormedSeq(a[1]) /\ Dom_ProfileSequence(P, a[1])
                                /\ Dom_ProductFits(P, <<>>, IF a[2] < 0 THEN 0 ELSE a[2])
